@@ -92,6 +92,10 @@ def check(repo, res, tier):
     res.s_clauses = ["S1 R-GRADSEL", "S2 R-SLOT", "S3 R-INIT"]
     res.n_clauses = ["numerical value of the integrated sensitivities (solver numerics; layout decided under C13)",
                      "the adjoint gradient (interpolation-based approximation)"]
+    # the derivative paths integrate over the grid stored at construction: it must be the caller's (t0, t), as the cost path's is
+    res.rule("R-TIMEGRID", "the sensitivity / Jacobian paths integrate from the caller's start time over the caller's observation times (same trajectory as the cost)")
+    from .C06 import check_time_grid
+    check_time_grid(repo, res, rule="R-TIMEGRID", paths=("derivatives",))
     bl = repo.cls(M.M_LOSS, "BaseLoss")
     nS, nP = len(STATES), len(PARAMS)
     n_t = 2
